@@ -282,7 +282,9 @@ def verify_report(ex, contract, timeout_ms=30000, variant="mv"):
         on_backtest = self.cls == "Backtest"
         strat = E.get(self, "strategy") if on_backtest else self
         rt = E.get(strat, "root")
-        st0.assume(And(self.term != dsl.NONE, strat.term != dsl.NONE, rt.term != dsl.NONE, Not(E.get(rt, "stale")), nmem_f(strat.term) >= 1, mem_at(strat.term, 0) == strat.term))
+        st0.assume(And(self.term != dsl.NONE, strat.term != dsl.NONE, rt.term != dsl.NONE, nmem_f(strat.term) >= 1, mem_at(strat.term, 0) == strat.term))
+        if on_backtest:
+            st0.assume(Not(E.get(rt, "stale")))   # the member accessors used by these two reports refresh by themselves (C08); modelled as plain histories here
         if on_backtest:
             fi_flag = variant == "fi"
             st0.assume(E.get(strat, "_fixed_income") == fi_flag)
@@ -320,6 +322,12 @@ def verify_report(ex, contract, timeout_ms=30000, variant="mv"):
                 obligs.append(Oblig("%s/%s" % (name, cid), st.pc, goal, "post", P18))
 
             ob("returns-a-frame-the-model-follows", isinstance(Rv, FrameTS))
+            if not on_backtest:
+                calls = [c for c in st.log if len(c) == 4]
+                was_stale = E.get(rt, "stale")
+                first_is_refresh = len(calls) >= 1 and And(calls[0][0].endswith(".update"), calls[0][1].term == rt.term, value_same(calls[0][2][0], E.get(rt, "now")))
+                ob("a-stale-tree-is-refreshed-before-the-histories-are-read", Implies(was_stale, first_is_refresh))
+                ob("a-fresh-tree-is-left-alone", Implies(Not(was_stale), len(calls) == 0))
             if not isinstance(Rv, FrameTS):
                 continue
             if q.endswith(".weights"):
